@@ -109,6 +109,12 @@ def run(ctx):
                     if tgt != t.get('otherwise'):
                         claimed.add(names.get(str(v), str(v)))
             ctx.floor(R4, len(claimed), 8, 'operators for which analyze_order claims an order')
+            for v, foreign in sorted(pass_through_arms(ao_b).items()):
+                ctx.ob(R4, f'analyze_order·{v}·passes-keys-unchanged', not foreign,
+                       f'{v}: the arm must hand on its child\'s key list as it is (x(child).clone()); other calls in the arm: {foreign}',
+                       [ao_b.loc],
+                       what=f'analyze_order computes the order of `{v}` from its child\'s keys with extra logic ({", ".join(foreign)[:120]}): '
+                            'a key list that is filtered rather than cut at the first missing key claims an order the rows do not have')
             for v in sorted(claimed):
                 ctx.ob(R4, f'analyze_order·{v}', v in ORDER_SOURCES,
                        f'{v}: ' + (ORDER_SOURCES.get(v) or 'no confirmed reason why this operator\'s output is ordered'), [ao_b.loc],
@@ -206,3 +212,24 @@ def run(ctx):
                         'statement dies with a capacity overflow')
     ctx.floor(R5, n_alloc, 1, 'sized allocations in TopN / Limit executors')
     ctx.note(f'C12-R5: the builder substitutes a constant for a missing LIMIT: {sentinel}')
+
+
+PASS_THROUGH = ('Proj', 'Filter', 'Window', 'Limit', 'MergeJoin', 'SortAgg', 'Order', 'TopN')
+
+
+def pass_through_arms(ao_b):
+    """for the arms of analyze_order that hand on a key list: calls in the arm other than the accessor closure and Clone"""
+    out = {}
+    sw = [(i, bl['term']) for i, bl in enumerate(ao_b.blocks) if bl['term']['k'] == 'switch' and bl['term'].get('adt') == 'planner::Expr']
+    for i, t in sw:
+        names = t.get('variants', {})
+        arms = {names.get(str(v), str(v)): tgt for v, tgt in t['targets'] if tgt != t.get('otherwise')}
+        for v, tgt in arms.items():
+            if v not in PASS_THROUGH:
+                continue
+            others = {x for vv, x in arms.items() if x != tgt} | ({t['otherwise']} if t.get('otherwise') is not None else set())
+            region = ao_b.reachable_from([tgt], avoid=others | {i})
+            foreign = sorted({re.sub(r'<[^<>]*>', '', c.fn or '?') for c in ao_b.calls if c.bb in region
+                              and not re.search(r'ops::Fn::call$|clone::Clone::clone$|ops::Deref::deref$', c.fn or '')})
+            out[v] = foreign
+    return out
